@@ -76,6 +76,15 @@ MENU = [
     ("stacked-decorators", "import abc, functools\nclass St:\n    @property\n    @abc.abstractmethod\n    def ap(self): ...\n    @staticmethod\n    @functools.cache\n    def sc(x): ...\n"
                            "    @staticmethod\n    async def sa(x): ...\n    @classmethod\n    async def ca(cls, y): ...\n"),
     ("inherit-below-generic", "import typing\nTV = typing.TypeVar('TV')\nclass Box(typing.Generic[TV]):\n    def get(self): ...\nclass PlainBox(Box):\n    pass\nclass DeeperBox(PlainBox):\n    pass\n"),
+    # definitions inside the clauses of compound statements (the same ones in every branch: the skeleton does not depend on which branch ran)
+    ("defs-in-blocks", "import sys\nmatch sys.maxsize:\n    case 0:\n        def mfn(a, b=1): ...\n        class MCls:\n            mattr = 1\n            def mm(self, p): ...\n    case _:\n        def mfn(a, b=1): ...\n        class MCls:\n            mattr = 1\n            def mm(self, p): ...\n"
+                       "try:\n    def tfn(x, /): ...\nexcept Exception:\n    pass\nelse:\n    class ECls:\n        ev = 1\nfinally:\n    def ffn(*, k=0): ...\n"
+                       "import contextlib\nwith contextlib.nullcontext():\n    def wfn(q): ...\nfor _i in (1,):\n    class LCls:\n        def lm(self): ...\ndel _i\nwhile True:\n    def whfn(): ...\n    break\n"),
+    # functions under decorators that return a functools.wraps wrapper (a plain one, a factory, an attribute chain): the signature CPython reports is the written one
+    ("wraps-decorated", "import functools\ndef _deco(fn):\n    @functools.wraps(fn)\n    def wrapper(*args, **kwargs):\n        return fn(*args, **kwargs)\n    return wrapper\ndef _factory(times):\n    return _deco\n"
+                        "import types\n_tools = types.SimpleNamespace(traced=_deco)\n"
+                        "@_deco\ndef wrapped(url, /, timeout=10, *, verify=True):\n    \"\"\"Doc wrapped.\"\"\"\n@_factory(times=5)\ndef wrapped2(a, b=2): ...\n@_tools.traced\ndef wrapped3(*, only): ...\n"
+                        "class WK:\n    @_deco\n    def meth(self, x, *, y=1): ...\n    @staticmethod\n    @_deco\n    def sm(p, q=0): ...\n"),
     # annotations that exist only as text: quoted names nothing defines, a name imported under TYPE_CHECKING only (evaluating them fails; the signature does not depend on them)
     ("f-unresolvable-annotations", "import typing\nif typing.TYPE_CHECKING:\n    from decimal import Decimal\ndef fq(a: 'NotDefinedAnywhere', b: 'Decimal' = 1, *, k: 'list[Nope]' = None) -> 'AlsoNot': ...\n"
                                    "class Q:\n    def qm(self, p: 'Decimal') -> 'Q': ...\n    @staticmethod\n    def qs(x: 'Nope'): ...\n"),
